@@ -1111,6 +1111,10 @@ rrul_fill_yly(echs_instant_t *restrict tgt, size_t nti, rrulsp_t rr)
 					/* attach scale and convert back to greg */
 					x = echs_instant_attach_scale(x, srcsca);
 
+					if (UNLIKELY(res >= nti)) {
+						/* cache is full, the rest comes with the next refill */
+						goto fin;
+					}
 					tries = 64U;
 					tgt[res + GRP_CCH_OFF] = (echs_instant_t){.y = y};
 					tgt[res++] = x;
@@ -1283,6 +1287,10 @@ rrul_fill_mly(echs_instant_t *restrict tgt, size_t nti, rrulsp_t rr)
 					/* attach scale and convert back to greg */
 					x = echs_instant_attach_scale(x, srcsca);
 
+					if (UNLIKELY(res >= nti)) {
+						/* cache is full, the rest comes with the next refill */
+						goto fin;
+					}
 					tries = 64U;
 					tgt[res + GRP_CCH_OFF] = (echs_instant_t){.y = y, .m = m};
 					tgt[res++] = x;
@@ -1432,6 +1440,10 @@ rrul_fill_wly(echs_instant_t *restrict tgt, size_t nti, rrulsp_t rr)
 				/* attach scale and convert back to greg */
 				x = echs_instant_attach_scale(x, srcsca);
 
+				if (UNLIKELY(res >= nti)) {
+					/* cache is full, the rest comes with the next refill */
+					goto fin;
+				}
 				tgt[res++] = x;
 			}
 		} while ((incs >>= 4U) && res < nti);
@@ -1582,6 +1594,10 @@ rrul_fill_dly(echs_instant_t *restrict tgt, size_t nti, rrulsp_t rr)
 			/* attach scale and convert back to greg */
 			x = echs_instant_attach_scale(x, srcsca);
 
+			if (UNLIKELY(res >= nti)) {
+				/* cache is full, the rest comes with the next refill */
+				goto fin;
+			}
 			tgt[res + GRP_CCH_OFF] = x;
 			tgt[res++] = x;
 		}
@@ -1759,6 +1775,10 @@ rrul_fill_Hly(echs_instant_t *restrict tgt, size_t nti, rrulsp_t rr)
 			if (UNLIKELY(echs_instant_lt_p(x, proto))) {
 				continue;
 			} else if (UNLIKELY(echs_instant_lt_p(rr->until, x))) {
+				goto fin;
+			}
+			if (UNLIKELY(res >= nti)) {
+				/* cache is full, the rest comes with the next refill */
 				goto fin;
 			}
 			tgt[res++] = x;
@@ -1941,6 +1961,10 @@ rrul_fill_Mly(echs_instant_t *restrict tgt, size_t nti, rrulsp_t rr)
 			if (UNLIKELY(echs_instant_lt_p(x, proto))) {
 				continue;
 			} else if (UNLIKELY(echs_instant_lt_p(rr->until, x))) {
+				goto fin;
+			}
+			if (UNLIKELY(res >= nti)) {
+				/* cache is full, the rest comes with the next refill */
 				goto fin;
 			}
 			tgt[res++] = x;
